@@ -89,7 +89,9 @@ REQUIRED_CLASSES = (["op:" + f for f in _FNS] +
                     ["overwrite", "sibling-write", "twin-overwrite", "rejected-with-stored-keys", "partial-applied",
                      "never-written-raises-RuntimeError", "read:value", "empty-repository-readback", "other-family-present-during-write",
                      "history:len=0", "history:len=1", "history:len=2", "history:len=3", "rejected"])
-BUDGET_S = {"quick": 900, "thorough": 9000}
+# caps, not expectations (quick ~45 s, thorough ~5 min on 16 idle cores); VERIF_BUDGET_SCALE stretches them on a loaded machine
+_SCALE = float(os.environ.get("VERIF_BUDGET_SCALE", "1") or 1)
+BUDGET_S = {"quick": int(600 * _SCALE), "thorough": int(3000 * _SCALE)}
 CHUNK = 2
 STATES_MEANING = "distinct model states (set of (family, key, metastable, id of the table last written)) reached after an operation"
 
